@@ -233,12 +233,213 @@ Definition wf_junction (p : token) (sp : bool) (t : token) : bool :=
 
 Definition is_some {A} (o : option A) : bool := match o with Some _ => true | None => false end.
 
-Ltac split_cls :=
-  repeat match goal with
-  | H : context [cls ?x] |- _ => destruct (cls x) eqn:?; try discriminate
-  | |- context [cls ?x] => destruct (cls x) eqn:?; try discriminate
+(* ---- finite abstraction: kind of word, class of its last character, class of the next first character *)
+
+Inductive kind := KLower | KUpper0 | KUpperB | KGlyph | KNames | KEq | KNumP | KNumN | KSub | KSubA
+                | KStrand | KOpen | KClose | KStr | KChr | KSpace.
+
+Definition kind_of (t : token) : kind :=
+  match t with
+  | TLower _ => KLower | TUpper _ O => KUpper0 | TUpper _ (S _) => KUpperB
+  | TGlyph _ => KGlyph | TNames _ => KNames | TEq => KEq
+  | TNum false _ => KNumP | TNum true _ => KNumN
+  | TSub _ => KSub | TSubA _ => KSubA | TStrand => KStrand | TOpen _ => KOpen | TClose _ => KClose
+  | TStr _ => KStr | TChr _ => KChr | TSpace _ => KSpace
   end.
 
+(** kind of the printed word *)
+Definition okind (k : kind) : kind := match k with KNames => KGlyph | KSubA => KSub | k => k end.
+
+Definition sadjA (L : cclass) (kt : kind) : bool :=
+  match kt with
+  | KNumP => cclass_eqb L CDig || cclass_eqb L CNeg
+  | KEq => cclass_eqb L CBang
+  | KLower => cclass_eqb L CLow
+  | _ => false
+  end.
+
+Definition sbA (kp : kind) (L : cclass) (sp : option bool) (kt : kind) : bool :=
+  match kp, kt with
+  | KOpen, _ => false
+  | _, KClose => false
+  | _, _ =>
+    match sp with
+    | Some multi =>
+        match kp, kt with
+        | KUpperB, _ => sadjA L kt
+        | KUpper0, KNames => multi
+        | KChr, KNames => if cclass_eqb L CUp then multi else true
+        | KSubA, (KNumP | KNumN) => multi
+        | _, _ => true
+        end
+    | None => sadjA L kt
+    end
+  end.
+
+Lemma sb_factor : forall p t sp L, (forall k, ends_with k p = cclass_eqb L k) ->
+  space_between p sp t = sbA (kind_of p) L sp (kind_of t).
+Proof.
+  intros p t sp L H. unfold space_between, space_adjacent. rewrite !H.
+  destruct p; try (destruct bangs); destruct t; try (destruct bangs); try (destruct bangs0);
+    try (destruct neg); try (destruct neg0);
+    destruct sp as [[|]|]; cbn [kind_of sbA sadjA negb andb]; try reflexivity.
+Qed.
+
+(** does a character of class [F] extend the pending word of a printed word of kind [k] ending in class [L]? *)
+Definition contA (k : kind) (L F : cclass) : bool :=
+  match k, F with
+  | KLower, (CLow | CUp) => true
+  | KUpper0, (CLow | CUp | CBang) => true
+  | KUpperB, CBang => true
+  | KGlyph, CDig => cclass_eqb L CNeg
+  | (KNumP | KNumN), CDig => true
+  | KSub, CSubd => true
+  | KSpace, CSp => true
+  | _, _ => false
+  end.
+
+Lemma sep_factor : forall h t c, valid_tok h = true -> first_char t = Some c ->
+  (match h with TNames _ | TSubA _ => false | _ => true end) = true ->
+  sep_ok h t = negb (contA (kind_of h) (cls (lastc h)) (cls c)).
+Proof.
+  intros h t c Hh Hc Hn. unfold sep_ok. rewrite Hc.
+  destruct h; try discriminate Hn; try (destruct bangs); try (destruct neg);
+    cbn [est kind_of lastc text last]; unfold continue;
+    try (destruct (cls g) eqn:Eg); destruct (cls c); reflexivity.
+Qed.
+
+Definition wfjA (a : kind) (L : cclass) (sp : bool) (b : kind) : bool :=
+  let sh (k : kind) : option shape :=
+    match k with
+    | KLower => Some HLower | KUpper0 => Some HUpper0 | KUpperB => Some HUpperB
+    | KGlyph => Some (if cclass_eqb L CNeg then HNeg else HGly)
+    | KNames => Some (if cclass_eqb L CNeg then HNamesN else HNamesG)
+    | KEq => Some HEq | KNumP => Some HNumP | KNumN => Some HNumN | KSub => Some HSub | KSubA => Some HSubA
+    | KStrand => Some HStrand | KOpen => Some HOpen | KClose => Some HClose | KStr => Some HStr | KChr => Some HChr
+    | KSpace => None
+    end in
+  (* the shape of [t] never depends on its last character except for glyphs and name runs, whose
+     distinction (¯ or not) plays no role on the right-hand side of [src_adjacent_ok] *)
+  match sh a with
+  | Some sa =>
+      let ok sb := if sp then match sa, sb with HStrand, _ | _, HStrand | _, HSub | _, HSubA => false | _, _ => true end
+                   else src_adjacent_ok sa sb in
+      match b with
+      | KGlyph => ok HGly | KNames => ok HNamesG
+      | KLower => ok HLower | KUpper0 => ok HUpper0 | KUpperB => ok HUpperB | KEq => ok HEq
+      | KNumP => ok HNumP | KNumN => ok HNumN | KSub => ok HSub | KSubA => ok HSubA | KStrand => ok HStrand
+      | KOpen => ok HOpen | KClose => ok HClose | KStr => ok HStr | KChr => ok HChr | KSpace => false
+      end
+  | None => false
+  end.
+
+Definition lclsA (k : kind) (L : cclass) : bool :=
+  match k with
+  | KLower => cclass_eqb L CLow
+  | KUpper0 => cclass_eqb L CLow || cclass_eqb L CUp
+  | KUpperB => cclass_eqb L CBang
+  | KGlyph | KNames => cclass_eqb L CGly || cclass_eqb L CNeg
+  | KEq => cclass_eqb L CEq
+  | KNumP | KNumN => cclass_eqb L CDig
+  | KSub | KSubA => cclass_eqb L CSubd
+  | KStrand => cclass_eqb L CUnder
+  | KOpen => cclass_eqb L COpen
+  | KClose => cclass_eqb L CClose
+  | KStr => cclass_eqb L CQuote
+  | KChr => true
+  | KSpace => cclass_eqb L CSp
+  end.
+
+Definition fclsA (k : kind) (F : cclass) : bool :=
+  match k with
+  | KLower => cclass_eqb F CLow
+  | KUpper0 | KUpperB => cclass_eqb F CUp
+  | KGlyph | KNames => cclass_eqb F CGly || cclass_eqb F CNeg
+  | KEq => cclass_eqb F CEq
+  | KNumN => cclass_eqb F CNeg
+  | KNumP => cclass_eqb F CDig
+  | KSub | KSubA => cclass_eqb F CSubd
+  | KStrand => cclass_eqb F CUnder
+  | KOpen => cclass_eqb F COpen
+  | KClose => cclass_eqb F CClose
+  | KStr => cclass_eqb F CQuote
+  | KChr => cclass_eqb F CAt
+  | KSpace => cclass_eqb F CSp
+  end.
+
+Definition all_kinds := [KLower; KUpper0; KUpperB; KGlyph; KNames; KEq; KNumP; KNumN; KSub; KSubA;
+                         KStrand; KOpen; KClose; KStr; KChr; KSpace].
+Definition all_classes := [CLow; CUp; CDig; CSubd; CNeg; CEq; CBang; CUnder; COpen; CClose; CQuote; CAt; CSp; CBad; CGly].
+Definition all_sp : list (option bool) := [None; Some false; Some true].
+
+Lemma all_kinds_in : forall k, In k all_kinds. Proof. destruct k; cbn; tauto. Qed.
+Lemma all_classes_in : forall k, In k all_classes. Proof. destruct k; cbn; tauto. Qed.
+Lemma all_sp_in : forall s, In s all_sp. Proof. destruct s as [[|]|]; cbn; tauto. Qed.
+
+(** the adjacency condition on one (kind, class, spacing, kind, class) tuple *)
+Definition junctionA (kp : kind) (L : cclass) (sp : option bool) (kt : kind) (F : cclass) : bool :=
+  implb (lclsA kp L && fclsA kt F && wfjA kp L (is_some sp) kt)
+    (if sbA kp L sp kt
+     then sbA (okind kp) L (Some false) (okind kt)
+     else negb (contA (okind kp) L F) && negb (sbA (okind kp) L None (okind kt))).
+
+(** EXHAUSTIVE: all 16 x 15 x 3 x 16 x 15 tuples *)
+Lemma junctionA_all :
+  forallb (fun kp => forallb (fun L => forallb (fun sp => forallb (fun kt => forallb (fun F =>
+    junctionA kp L sp kt F) all_classes) all_kinds) all_sp) all_classes) all_kinds = true.
+Proof. vm_compute. reflexivity. Qed.
+
+Lemma junctionA_holds : forall kp L sp kt F, junctionA kp L sp kt F = true.
+Proof.
+  intros kp L sp kt F. pose proof junctionA_all as H.
+  rewrite forallb_forall in H. specialize (H kp (all_kinds_in kp)).
+  rewrite forallb_forall in H. specialize (H L (all_classes_in L)).
+  rewrite forallb_forall in H. specialize (H sp (all_sp_in sp)).
+  rewrite forallb_forall in H. specialize (H kt (all_kinds_in kt)).
+  rewrite forallb_forall in H. exact (H F (all_classes_in F)).
+Qed.
+
+Lemma kind_out_last : forall p, kind_of (out_last_of p) = okind (kind_of p).
+Proof. destruct p; try reflexivity; try (destruct bangs; reflexivity); destruct neg; reflexivity. Qed.
+Lemma kind_out_first : forall t, kind_of (out_first_of t) = okind (kind_of t).
+Proof. destruct t; try reflexivity; try (destruct bangs; reflexivity); destruct neg; reflexivity. Qed.
+
+Lemma lastc_out : forall p, lastc (out_last_of p) = lastc p.
+Proof. destruct p; reflexivity. Qed.
+
+Lemma valid_out_last : forall p, valid_tok p = true -> valid_tok (out_last_of p) = true.
+Proof.
+  intros p H; destruct p; try exact H. cbn [valid_tok out_last_of] in *.
+  apply andb_true_iff in H; destruct H as [Hn Ha]. apply forallb_last; [exact Ha | apply nonempty_neq; exact Hn].
+Qed.
+
+Lemma lcls_factor : forall p L, lcls_ok p L = lclsA (kind_of p) L.
+Proof. destruct p; intro L; try reflexivity; try (destruct bangs; reflexivity); destruct neg; reflexivity. Qed.
+Lemma fcls_factor : forall t F, fcls_ok t F = fclsA (kind_of t) F.
+Proof. destruct t; intro F; try reflexivity; try (destruct bangs; reflexivity); destruct neg; reflexivity. Qed.
+
+Lemma adj_ok_neg_r : forall a, src_adjacent_ok a HNeg = src_adjacent_ok a HGly.
+Proof. destruct a; reflexivity. Qed.
+Lemma adj_ok_namesn_r : forall a, src_adjacent_ok a HNamesN = src_adjacent_ok a HNamesG.
+Proof. destruct a; reflexivity. Qed.
+
+Lemma wfj_factor : forall p t spb, valid_tok p = true -> wf_junction p spb t = true ->
+  wfjA (kind_of p) (cls (lastc p)) spb (kind_of t) = true.
+Proof.
+  intros p t spb Hp H. unfold wf_junction, shape_of in H.
+  rewrite ?(ends_with_spec _ p Hp) in H.
+  destruct p; try discriminate H; try (destruct bangs); try (destruct neg);
+    cbn [kind_of wfjA lastc text last] in *;
+    destruct t; try discriminate H; try (destruct bangs); try (destruct bangs0); try (destruct neg); try (destruct neg0);
+    cbn [kind_of] in *;
+    try exact H;
+    repeat (match type of H with context [ends_with ?k ?x] => destruct (ends_with k x) end);
+    try (match type of H with context [cclass_eqb (cls ?g) CNeg] => destruct (cclass_eqb (cls g) CNeg) end);
+    try (match goal with |- context [cclass_eqb ?x CNeg] => destruct (cclass_eqb x CNeg) end);
+    destruct spb; try exact H; try discriminate H; try reflexivity.
+Qed.
+
+(** THE ADJACENCY LEMMA (from the exhaustive check [junctionA_all]) *)
 Lemma junction : forall p t sp, valid_tok p = true -> valid_tok t = true ->
   wf_junction p (is_some sp) t = true ->
   if space_between p sp t then spaced_stable (out_last p) (out_first t) = true
@@ -248,15 +449,15 @@ Proof.
   rewrite (out_last_eq p Hp), (out_first_eq t Ht).
   destruct (first_out t Ht) as (c & Hfc & HF).
   pose proof (lastc_cls p Hp) as HL.
-  unfold spaced_stable, adj_stable, sep_ok; rewrite Hfc.
-  unfold wf_junction, shape_of in Hw.
-  unfold space_between, space_adjacent.
-  rewrite ?(ends_with_spec _ p Hp), ?(ends_with_out _ p Hp) in *.
-  clear Hfc Hp Ht.
-  destruct p; try discriminate Hw;
-    destruct t; try discriminate Hw;
-    cbn [out_last_of out_first_of est lastc text last lcls_ok fcls_ok] in *;
-    try (destruct bangs); try (destruct bangs0); try (destruct neg); try (destruct neg0);
-    destruct sp as [[|]|]; cbn [is_some] in Hw;
-    unfold continue; split_cls; try discriminate; reflexivity.
+  pose proof (wfj_factor p t _ Hp Hw) as HW.
+  pose proof (junctionA_holds (kind_of p) (cls (lastc p)) sp (kind_of t) (cls c)) as J.
+  unfold junctionA in J. rewrite lcls_factor in HL. rewrite fcls_factor in HF.
+  rewrite HL, HF, HW in J. cbn [andb implb] in J.
+  rewrite (sb_factor p t sp (cls (lastc p))) by (intro k; apply ends_with_spec; exact Hp).
+  unfold spaced_stable, adj_stable.
+  rewrite (sb_factor (out_last_of p) (out_first_of t) (Some false) (cls (lastc p))) by (intro k; apply ends_with_out; exact Hp).
+  rewrite (sb_factor (out_last_of p) (out_first_of t) None (cls (lastc p))) by (intro k; apply ends_with_out; exact Hp).
+  rewrite (sep_factor (out_last_of p) (out_first_of t) c (valid_out_last p Hp) Hfc) by (destruct p; reflexivity).
+  rewrite lastc_out, kind_out_last, kind_out_first.
+  destruct (sbA (kind_of p) (cls (lastc p)) sp (kind_of t)); exact J.
 Qed.
